@@ -14,6 +14,7 @@ Step ==
   /\ \/ Ev.ev = "Reset" /\ store' = Empty /\ done' = Empty /\ ev' = [ev |-> "R"]
      \/ Ev.ev = "send" /\ UNCHANGED <<store, done>> /\ ev' = Ev
      \/ Ev.ev = "local" /\ UNCHANGED <<store, done>> /\ ev' = Ev
+     \/ Ev.ev = "cong" /\ UNCHANGED <<store, done>> /\ ev' = Ev
      \/ Ev.ev = "rx" /\ Ev.f.seq >= 0 /\ Rx(Fr, Ev.delivered)
      \/ Ev.ev = "rx" /\ Ev.f.seq < 0 /\ UNCHANGED <<store, done>> /\ ev' = [ev |-> "rx1", m |-> Ev.m, delivered |-> Ev.delivered]
 TSpec == TInit /\ [][Step]_tvars
@@ -24,6 +25,11 @@ I_C10send == (ev.ev = "send") => SendOK(ev, Frames4(ev))
 I_nopanic == hi >= 1 => ~("panic" \in DOMAIN Trace[hi])
 \* an unfragmented frame is delivered at once, as itself
 I_C10local == (ev.ev = "local") => LocalFieldsOK(ev)
+\* congestion marks: only for a packet that came with one or on a face whose queue is over the threshold, always (on the first
+\* fragment, which is where the receiver reads it) when the packet came with one; the packet object handed to the link service is left as it was
+I_C10cong == (ev.ev = "cong") => /\ Len(ev.marks) >= 1 /\ ~ev.mutated
+                                 /\ (\E x \in 1..Len(ev.marks) : ev.marks[x]) => (ev.up \/ ev.congested)
+                                 /\ ev.up => ev.marks[1]
 I_C10single == (ev.ev = "rx1") => ev.delivered = << ev.m >>
 \* delivered packets are the original bytes with the original token and congestion mark
 T_C10intact == [][(l <= Len(Trace) /\ Ev.ev = "rx") => Ev.intact]_tvars
